@@ -409,5 +409,6 @@ func TestReplay(t *testing.T) {
 	vt.Register(propRO)
 	vt.Register(propImm)
 	vt.Register(propConc)
+	vt.Register(propShadow)
 	vt.Replay(t)
 }
